@@ -78,6 +78,179 @@ theorem area_weight_matrix_edges_at (faces : List Face) (edges : List (Nat × Na
     simp only [forEach, List.foldl_cons, List.foldl_nil]
     split_ifs <;> simp_all [upd]
 
+/-! ## adjacency_matrix: COO assembly, two coefficients per edge at positions `2e`, `2e+1` -/
+
+/-- the writes `x[2*e] = p(elem); x[2*e+1] = q(elem)` are local to the block of the element -/
+theorem pair_writes_block {α β : Type} (p q : β → α) :
+    IsBlockE 2 (fun (r : Attr α) e (ab : β) => wr (wr r (2 * e) (p ab)) (2 * e + 1) (q ab)) := by
+  intro a i x j
+  simp only [wr]
+  split_ifs <;> first | rfl | omega
+
+theorem pair_writes_get {α β : Type} (p q : β → α) (l : List β) (a : Attr α) (j : Nat) (hj : j / 2 < l.length) :
+    forEnum l a (fun (r : Attr α) e (ab : β) => wr (wr r (2 * e) (p ab)) (2 * e + 1) (q ab)) j
+      = if j % 2 = 0 then p l[j / 2] else q l[j / 2] := by
+  rw [forEnum_block_get 2 _ (pair_writes_block p q) a l j hj]
+  simp only [wr]
+  split_ifs <;> first | rfl | omega
+
+theorem pair_writes_range_get {α : Type} (g : Nat → α) (n : Nat) (a : Attr α) (j : Nat) (hj : j / 2 < n) :
+    forRange n a (fun (r : Attr α) e => wr (wr r (2 * e) (g e)) (2 * e + 1) (g e)) j = g (j / 2) := by
+  rw [forRange_block_at 2 _ (by intro a i j; simp only [wr]; split_ifs <;> first | rfl | omega)]
+  simp only [hj, if_true, wr]
+  split_ifs <;> first | rfl | omega
+
+theorem adjacencyAux_length (w : Nat → Rat) (es : List (Nat × Nat)) (k : Nat) : (adjacencyAux w es k).length = 2 * es.length := by
+  induction es generalizing k with
+  | nil => rfl
+  | cons e es ih => simp only [adjacencyAux, List.length_cons, ih]; omega
+
+/-- entry `j` of the model's triplet list -/
+theorem adjacencyAux_get (w : Nat → Rat) : ∀ (es : List (Nat × Nat)) (k j : Nat) (hj : j / 2 < es.length),
+    (adjacencyAux w es k)[j]? = some (if j % 2 = 0 then (es[j / 2].1, es[j / 2].2, w (k + j / 2)) else (es[j / 2].2, es[j / 2].1, w (k + j / 2))) := by
+  intro es
+  induction es with
+  | nil => intro k j hj; simp at hj
+  | cons e es ih =>
+    intro k j hj
+    match j with
+    | 0 => simp [adjacencyAux]
+    | 1 => simp [adjacencyAux]
+    | j + 2 =>
+      have h1 : (j + 2) / 2 = j / 2 + 1 := by omega
+      have h2 : (j + 2) % 2 = j % 2 := by omega
+      have hj' : j / 2 < es.length := by simp only [h1, List.length_cons] at hj; omega
+      have h3 : k + 1 + j / 2 = k + (j / 2 + 1) := by omega
+      simp only [adjacencyAux, List.getElem?_cons_succ, ih (k + 1) j hj', h1, h2, List.getElem_cons_succ, h3]
+
+/-- the triplets of `adjacency_matrix`, whatever the three arrays of coefficients: rows/cols as the model says -/
+theorem adjacency_matrix_modes (vs : List V3) (edges : List (Nat × Nat)) (elen : V3 → V3 → Rat) (wdict : Attr Rat) (weights : String) :
+    C08Src.adjacency_matrix vs edges elen wdict weights =
+      adjacency (if weights = "one" then fun _ => 1
+                 else if weights = "length" then fun k => elen (pt vs (edges.getD k (0, 0)).1) (pt vs (edges.getD k (0, 0)).2)
+                 else wdict) edges := by
+  unfold C08Src.adjacency_matrix adjacency
+  simp only []
+  rw [forEnum, forEnumFrom_pair (fun (r : Attr Nat) e (ab : Nat × Nat) => wr (wr r (2 * e) ab.1) (2 * e + 1) ab.2)
+    (fun (r : Attr Nat) e (ab : Nat × Nat) => wr (wr r (2 * e) ab.2) (2 * e + 1) ab.1)]
+  apply List.ext_getElem?
+  intro j
+  by_cases hj : j / 2 < edges.length
+  · have hj2 : j < 2 * edges.length := by omega
+    rw [adjacencyAux_get _ _ _ _ hj]
+    simp only [List.getElem?_map, List.getElem?_range hj2, Option.map_some]
+    have hr := pair_writes_get (fun ab : Nat × Nat => ab.1) (fun ab => ab.2) edges (fun _ => 0) j hj
+    have hc := pair_writes_get (fun ab : Nat × Nat => ab.2) (fun ab => ab.1) edges (fun _ => 0) j hj
+    simp only [forEnum] at hr hc
+    rw [hr, hc]
+    by_cases h1 : weights = "one"
+    · subst h1; simp; split_ifs <;> rfl
+    · by_cases h2 : weights = "length"
+      · subst h2
+        have hv := pair_writes_get (fun ab : Nat × Nat => elen (pt vs ab.1) (pt vs ab.2)) (fun ab => elen (pt vs ab.1) (pt vs ab.2)) edges (fun _ => 0) j hj
+        simp only [forEnum] at hv ⊢
+        simp [hv, List.getD_eq_getElem?_getD, hj]; split_ifs <;> rfl
+      · have hv := pair_writes_range_get wdict edges.length (fun _ => 0) j hj
+        simp [h1, h2, hv]; split_ifs <;> rfl
+  · have hj2 : ¬ j < 2 * edges.length := by omega
+    have : (adjacencyAux (if weights = "one" then fun _ => 1 else if weights = "length" then fun k => elen (pt vs (edges.getD k (0, 0)).1) (pt vs (edges.getD k (0, 0)).2) else wdict) edges 0)[j]? = none := by
+      rw [List.getElem?_eq_none]; rw [adjacencyAux_length]; omega
+    rw [this, List.getElem?_eq_none]; simp; omega
+
+/-! ## vertex_to_edge_operator / vertex_to_face_operator: `lil_matrix` assignments (an entry written twice keeps the LAST value) -/
+
+/-- the edge loop, for any starting matrix that is still empty from column `k` on; edges have two distinct end points -/
+theorem vertex_to_edge_fold (oriented : Bool) : ∀ (es : List (Nat × Nat)) (k : Nat) (m : Attr2 Rat),
+    (∀ a b, k ≤ b → m a b = 0) → (∀ e ∈ es, e.1 ≠ e.2) → ∀ i j,
+      forEnumFrom k es m (fun m e ab => wr2 (wr2 m ab.1 e (if oriented then -1 else 1)) ab.2 e 1) i j
+        = m i j + toFun (vertexToEdgeAux oriented es k) i j := by
+  intro es
+  induction es with
+  | nil => intro k m _ _ i j; simp [forEnumFrom, vertexToEdgeAux, toFun, rsum]
+  | cons e es ih =>
+    intro k m hm hd i j
+    have hne : e.1 ≠ e.2 := hd e (by simp)
+    rw [forEnumFrom, ih (k + 1) _ _ (fun e' he' => hd e' (by simp [he']))]
+    · rw [vertexToEdgeAux, toFun_cons, toFun_cons]
+      simp only [wr2]
+      by_cases hj : j = k
+      · subst hj
+        have h0 : m i j = 0 := hm i j (Nat.le_refl _)
+        by_cases h1 : i = e.1 <;> by_cases h2 : i = e.2 <;> simp_all [eq_comm] <;> ring
+      · have hj' : ¬ k = j := fun h => hj h.symm
+        simp [hj, hj']
+    · intro a b hb
+      have : ¬ b = k := by omega
+      simp only [wr2, this, and_false, if_false]
+      exact hm a b (by omega)
+
+/-- `vertex_to_edge_operator`: every entry is the entry of the model's triplet list (one `±1` per incidence) -/
+theorem vertex_to_edge_operator_bridge (vs : List V3) (edges : List (Nat × Nat)) (oriented : Bool) (hd : ∀ e ∈ edges, e.1 ≠ e.2) (i j : Nat) :
+    C08Src.vertex_to_edge_operator vs edges oriented i j = toFun (vertexToEdge oriented edges) i j := by
+  unfold C08Src.vertex_to_edge_operator vertexToEdge
+  simp only [forEnum]
+  rw [vertex_to_edge_fold oriented edges 0 _ (fun _ _ _ => rfl) hd]; simp
+
+theorem row_writes (f : Face) (t : Nat) (a : Rat) : ∀ (m : Attr2 Rat) (i j : Nat),
+    forEach f m (fun m v => wr2 m t v a) i j = if i = t ∧ j ∈ f then a else m i j := by
+  induction f with
+  | nil => intro m i j; simp [forEach]
+  | cons v vs ih =>
+    intro m i j
+    simp only [forEach, List.foldl_cons] at ih ⊢
+    rw [ih]
+    simp only [wr2, List.mem_cons]
+    by_cases h1 : i = t <;> by_cases h2 : j ∈ vs <;> by_cases h3 : j = v <;> simp [h1, h2, h3]
+
+theorem toFun_row (f : Face) (hf : f.Nodup) (t : Nat) (a : Rat) (i j : Nat) :
+    toFun (f.map (fun v => ((t, v, a) : Trip))) i j = if i = t ∧ j ∈ f then a else 0 := by
+  induction f with
+  | nil => simp [toFun, rsum]
+  | cons v vs ih =>
+    have hv : v ∉ vs := (List.nodup_cons.mp hf).1
+    rw [List.map_cons, toFun_cons, ih (List.nodup_cons.mp hf).2]
+    simp only [List.mem_cons]
+    by_cases h1 : i = t <;> by_cases h3 : j = v
+    · subst h3; simp [h1, hv]
+    · have : ¬ v = j := fun e => h3 e.symm
+      simp [h1, h3, this]
+    · have : ¬ t = i := fun e => h1 e.symm
+      simp [h1, this]
+    · have : ¬ t = i := fun e => h1 e.symm
+      simp [h1, this]
+
+/-- the face loop, for any starting matrix that is still empty from row `k` on; a face does not repeat a vertex -/
+theorem vertex_to_face_fold : ∀ (fs : List Face) (k : Nat) (m : Attr2 Rat),
+    (∀ a b, k ≤ a → m a b = 0) → (∀ f ∈ fs, f.Nodup) → ∀ i j,
+      forEnumFrom k fs m (fun m t f => forEach f m (fun m v => wr2 m t v (1 / (f.length : Rat)))) i j
+        = m i j + toFun (vertexToFaceAux fs k) i j := by
+  intro fs
+  induction fs with
+  | nil => intro k m _ _ i j; simp [forEnumFrom, vertexToFaceAux, toFun, rsum]
+  | cons f fs ih =>
+    intro k m hm hd i j
+    rw [forEnumFrom, ih (k + 1) _ _ (fun f' hf' => hd f' (by simp [hf']))]
+    · rw [vertexToFaceAux, Mouette.Ops.toFun_append, toFun_row f (hd f (by simp)), row_writes]
+      by_cases h1 : i = k ∧ j ∈ f
+      · have : m k j = 0 := hm k j (Nat.le_refl _)
+        simp [h1, this]
+      · simp [h1]
+    · intro a b ha
+      rw [row_writes]
+      have : ¬ a = k := by omega
+      simp only [this, false_and, if_false]
+      exact hm a b (by omega)
+
+/-- `vertex_to_face_operator`: `mat[iT, V] = 1/len(T)`, one entry per incidence: the model's triplet list, entry by entry -/
+theorem vertex_to_face_operator_bridge (vs : List V3) (faces : List Face) (hd : ∀ f ∈ faces, f.Nodup) (i j : Nat) :
+    C08Src.vertex_to_face_operator vs faces i j = toFun (vertexToFace faces) i j := by
+  unfold C08Src.vertex_to_face_operator vertexToFace
+  simp only [forEnum]
+  rw [vertex_to_face_fold faces 0 _ (fun _ _ _ => rfl) hd]; simp
+
+example : C08Src.adjacency_matrix [⟨0,0,0⟩, ⟨1,0,0⟩] [(0, 1)] (fun _ _ => 2) (fun _ => 5) "length" = [(0, 1, 2), (1, 0, 2)] := by decide +kernel
+example : C08Src.vertex_to_edge_operator [] [(0, 1), (1, 2)] true 1 0 = 1 ∧ C08Src.vertex_to_edge_operator [] [(0, 1), (1, 2)] true 1 1 = -1 := by
+  constructor <;> decide +kernel
 example : C08Src.area_weight_matrix [[0, 1, 2], [1, 0, 3]] (fun t => if t = 0 then 2 else 3) 1 = 5 := by decide +kernel
 
 end Mouette.Props.C08Source
